@@ -131,6 +131,9 @@ func (in *Interp) vfPar(caller *frame, f, g Value) {
 func (in *Interp) mutexLock(m Value) {
 	s := in.sched()
 	if s == nil || !s.active {
+		if p, ok := m.(Ptr); ok && p != nil {
+			in.gMutexLock(p)
+		}
 		return
 	}
 	p, ok := m.(Ptr)
@@ -179,6 +182,9 @@ func (in *Interp) mutexLock(m Value) {
 func (in *Interp) mutexUnlock(m Value) {
 	s := in.sched()
 	if s == nil || !s.active {
+		if p, ok := m.(Ptr); ok && p != nil {
+			in.gMutexUnlock(p)
+		}
 		return
 	}
 	p, ok := m.(Ptr)
